@@ -653,11 +653,12 @@ func (e *bitEnv) exec(stmts []ast.Stmt) ([]bval, bool) {
 						okAll := true
 						for _, el := range cl.Elts {
 							kv, isKV := el.(*ast.KeyValueExpr)
-							kid, isId := ast.Expr(nil).(*ast.Ident), false
-							if isKV {
-								kid, isId = kv.Key.(*ast.Ident)
+							if !isKV {
+								okAll = false
+								continue
 							}
-							if !isKV || !isId {
+							kid, isId := kv.Key.(*ast.Ident)
+							if !isId {
 								okAll = false
 								continue
 							}
